@@ -502,7 +502,7 @@ func (m *cronMon) noteTickerRead(p *Proc) bool {
 		return true
 	}
 	st.reads++
-	if st.reads > 20000 {
+	if st.reads > 3000 {
 		m.w.Sim.Violate(m.prop("work-livelock"), "%s: one scheduling pass performed %d cache reads without finishing (started %s, clock %s)", p.name, st.reads, fmtT(st.ws), fmtT(m.w.Sim.Now()))
 		return false
 	}
